@@ -720,7 +720,7 @@ def kind_world(sb, kind, rng):
         mod = {'id': 'command:ship', 'type': 'command'}; files = {'ship.md': CMD_MD}
         info.update({'ty': 2, 'src_name': 'ship.md', 'root': os.path.join(sb.project, '.claude', 'commands')})
     elif kind == 'codex_skill':
-        name = rng.choice(['helper', 'my-skill'])
+        name = rng.choice(['helper', 'my-skill', 'team:reviewer', 'a:b:c', 'x:'+'y'])   # the skill name is everything after the FIRST ':' of the id
         target, scope, opts = 'codex', 'user', dict(codex_opts, write_user_skills=True)
         mod = {'id': 'skill:' + name, 'type': 'skill'}; files = {'SKILL.md': SKILL_MD % name, 'notes/x.md': 'note\n'}
         info.update({'ty': 3, 'skill_name': name, 'root': os.path.join(ch, 'skills'), 'edit_rel': rng.choice(['SKILL.md', 'notes/x.md'])})
